@@ -159,6 +159,19 @@ func universeOf(s string, n int, ps string, pn int) []interface{} {
 		map[int64]string{math.MinInt64: "lo", 1: "one", math.MaxInt64: "hi", -3: s}, map[int]bool{-5: true, 7: false, math.MinInt64: true},
 		map[uint64]int{math.MaxUint64: 1, 0: 2, 1 << 63: n}, map[float64]string{math.Inf(-1): "a", math.NaN(): "b", 0: s, math.Inf(1): "c"},
 		map[[2]int]string{{1, 2}: "x", {1, -9}: s, {math.MinInt64, 0}: "z"},
+		// types whose NAME holds marker characters, line feeds and partial markers (struct tags are part of the name of an
+		// unnamed struct type): %T, %#v, bad-verb and EXTRA reports print it
+		struct {
+			ID int `help:"‹"`
+		}{n}, []struct {
+			A string "t:\"›x‹\""
+		}{{s}}, map[struct {
+			K int "a:\"‹\u00d7›\""
+		}]struct {
+			V string "p:\"\xe2\x80\""
+		}{{1}: {s}}, &struct {
+			P *int `m:"‹×›"`
+		}{},
 	}
 }
 
@@ -289,6 +302,9 @@ func runDiff(rep *lib.Report, c diffCase) {
 		rep.Violate("fmtdiff:illformed", fmt.Sprintf("format %q: output %q", c.Format, red), c)
 		return
 	}
+	if !lib.LineSafe([]byte(red)) {
+		rep.Violate("fmtdiff:linespan", fmt.Sprintf("format %q: an envelope spans a line feed: %q", c.Format, red), c)
+	}
 	got := redact.RedactableString(red).StripMarkers()
 	want := string(lib.EscapeAll([]byte(std)))
 	if got != want && strings.Contains(std, "(PANIC=") && hasWidthOrPrec(c.Format) {
@@ -317,6 +333,10 @@ func fmtdiffDrive(args []string) {
 	if *prop == "C11" {
 		// C11 only asks that redact does not panic where fmt does not
 		rep.Filter = func(sig string) bool { return strings.Contains(sig, "panic") }
+	}
+	if *prop == "C01" || *prop == "C03" {
+		// well-formedness and line-safety of everything printed for the whole value universe
+		rep.Filter = func(sig string) bool { return strings.Contains(sig, "illformed") || strings.Contains(sig, "linespan") }
 	}
 	usize := len(universe(rand.New(rand.NewSource(1))))
 	rep.Extra["universe_size"] = usize
